@@ -162,11 +162,11 @@ theorem verifyFile_own (H : Bytes → Bytes) (sp : SignParams) (stream : Bytes) 
     · exact zipChecks_map H _ c hc
 
 /-- the pieces of a successful `machos.Sign` -/
-theorem sign_pieces (f : Bytes) (p : SignParams) (so : SignOut) (h : sign f p = .ok so) :
+theorem sign_pieces (f : Bytes) (p : SignParams) (so : SignOut) (h : signOrig f p = .ok so) :
     ∃ p' : SignParams,
-      plan f (hashSizeOf p.hash) ((p.entitlement.map (·.length)).getD 0) ((p.requirements.map (·.length)).getD 0) = .ok so.plan ∧
+      planOrig f (hashSizeOf p.hash) ((p.entitlement.map (·.length)).getD 0) ((p.requirements.map (·.length)).getD 0) = .ok so.plan ∧
       signBlob p' so.plan.stream = .ok so.signed ∧ p'.hash = p.hash ∧ p'.repSpecific = p.repSpecific := by
-  unfold sign at h
+  unfold signOrig at h
   split at h
   · cases h
   · cases h
@@ -205,10 +205,10 @@ theorem patchSignature_sigBufLen (m : Markers) (hdr : Bytes) (sigSize : Int) (po
     repeat' (split at h)
     all_goals (first | (simp only [Res.ok.injEq] at h; subst h; rfl) | cases h)
 
-theorem plan_pieces (f : Bytes) (hs e r : Nat) (pl : Plan) (h : plan f hs e r = .ok pl) :
-    scan f = .ok pl.m ∧
+theorem plan_pieces (f : Bytes) (hs e r : Nat) (pl : Plan) (h : planOrig f hs e r = .ok pl) :
+    scanOrig f = .ok pl.m ∧
     patchSignature pl.m (f.take pl.m.consumed) (Int.tdiv (pl.m.codeSize * (20 + hs : Nat)) 4096 + (e + r : Nat) + 16384) = .ok pl.po := by
-  unfold plan at h
+  unfold planOrig at h
   split at h
   · cases h
   · cases h
